@@ -567,6 +567,70 @@ func propAssumptions(prop string) []string {
 		"induction over build histories (every public operation preserves the invariant, hence every reachable table satisfies it) is a paper step"}
 }
 
+// Counterexample search. The solvers answer unknown/timeout (no model) on a failed obligation, so a failing
+// input is looked for separately: for some functions /verif/replay/harness.json names a Go test that runs the
+// REAL function over a small exhaustive domain and compares with an executable reading of its contract. It is
+// run only when an obligation of that function has failed. A failure of the harness is a concrete failing input
+// replayed on the real code (VIOLATION line without the no-failing-input-found suffix); if it finds nothing the
+// violation stands as reported by the verifier.
+type searchHarness struct {
+	Funcs []string `json:"funcs"`
+	Pkg   string   `json:"pkg"`
+	Test  string   `json:"test"`
+	Run   string   `json:"run"`
+	Bound string   `json:"bound"`
+}
+
+var searchCache = map[string]*standinResult{}
+
 func tryReplay(w *World, r *SolveResult, verifDir, tmp string, content map[string]interface{}) bool {
+	if r.obl == nil {
+		return false
+	}
+	b, err := os.ReadFile(filepath.Join(verifDir, "replay", "harness.json"))
+	if err != nil {
+		return false
+	}
+	var hs []searchHarness
+	if json.Unmarshal(b, &hs) != nil {
+		return false
+	}
+	for _, h := range hs {
+		match := false
+		for _, f := range h.Funcs {
+			if strings.HasPrefix(r.obl.Func, f) {
+				match = true
+			}
+		}
+		if !match {
+			continue
+		}
+		res := searchCache[h.Test]
+		if res == nil {
+			d, _ := os.MkdirTemp("", "search")
+			tf := filepath.Join(verifDir, h.Test)
+			ov := fmt.Sprintf(`{"Replace":{"%s/%s/zz_search_%s":"%s"}}`, w.repo, h.Pkg, filepath.Base(tf), tf)
+			os.WriteFile(filepath.Join(d, "ov.json"), []byte(ov), 0o644)
+			cmd := exec.Command("go", "test", "-overlay", filepath.Join(d, "ov.json"), "-vet=off", "-count=1", "-timeout", "5m", "-run", "^"+h.Run+"$", ".")
+			cmd.Dir = filepath.Join(w.repo, h.Pkg)
+			cmd.Env = append(os.Environ(), "GOFLAGS=-mod=mod", "GOPROXY=off", "GOSUMDB=off", "GOTOOLCHAIN=local")
+			o, err := cmd.CombinedOutput()
+			os.RemoveAll(d)
+			txt := string(o)
+			if len(txt) > 4000 {
+				txt = txt[:4000] + "\n[...]"
+			}
+			res = &standinResult{OK: err == nil, Output: txt, Bound: h.Bound,
+				Cmd: fmt.Sprintf("cd %s/%s && go test -overlay <%s as in-package test> -vet=off -count=1 -run '^%s$' .", w.repo, h.Pkg, h.Test, h.Run)}
+			if err != nil && !strings.Contains(txt, "failing input") {
+				// the harness itself did not build or crashed: not a counterexample
+				res.OK = true
+				res.Output = "harness did not run: " + txt
+			}
+			searchCache[h.Test] = res
+		}
+		content["counterexample_search"] = map[string]interface{}{"cmd": res.Cmd, "bound": res.Bound, "found_failing_input": !res.OK, "output": res.Output}
+		return !res.OK
+	}
 	return false
 }
